@@ -389,7 +389,7 @@ PROPS["C13"] = {
 
 PROPS["C10"] = {
     "kani_units": ["U11", "U14"],
-    "verus_units": [],
+    "verus_units": ["tree_deref"],
     "syntactic": ["claim_tree_values_checks_before_claim"],
     "level": "other",
     "technique": "Kani/CBMC contracts on the real packed-node decoder and on the representability check of the encoder",
@@ -464,6 +464,9 @@ UNIT_META = {
                      "assumes": ["IndexTable::get = U2's search contract lifted through with_index/mmap (external_body)", "Column::get_value contract (external_body)"]},
     "overlay_publish": {"functions": ["db::IndexedChangeSet::{check,copy_to_overlay}", "btree::commit_overlay::BTreeChangeSet::{check,copy_to_overlay}"],
                         "assumes": ["std map insert contract on opaque overlay types", "RcValue::clone/value contracts", "byte counters bounded (precondition)"]},
+    "tree_deref": {"functions": ["db::IndexedChangeSet::write_dereference_children_plan"],
+                   "assumes": ["HashColumn::write_address_dec_ref_plan lowers the count of exactly the given address (external_body)", "TreeReader::get_node_children (external_body, unconstrained)",
+                               "termination not proved (needs finite acyclic stored trees)", "a record never holds 2^62 operations"]},
     "ref_counter": {"functions": ["table::ValueTable::change_ref (fragment)"], "assumes": ["Buf::read_rc models the entry buffer positioned at the counter"]},
     "U1": {
         "functions": ["index::Entry::{new,address_bits,last_address,address,partial_key,extract_key,is_empty,empty,as_u64,from_u64}",
